@@ -17,6 +17,12 @@ CONSTANTS
   MaxTicks = 0
   Faults = {}
   MaxRenewFails = 0
+  MaxConsecFails = 1
+  HbGiveUp = "never"
+  GiveUpAfter = 0
+  RenewTTLTicks = 3
+  Realloc = FALSE
+  StopChan = "once"
   WithLapse = FALSE
   Emit = FALSE
 INIT Init
